@@ -232,7 +232,35 @@ def devNameFor (p1 : Config) (vname : Str) : Res Str :=
     | none => .panic (.nilDeref "p1.Devices.Entries")
   else .ok []
 
+/-- `getDevName` (LoadDevice → checkDeviceName): hostname of the first device entry.
+Snapshot: `c.Devices.Entries[0].Hostname` unguarded. -/
+def getDevName (fixed : Bool) (hostnames : Option (List Str)) : Res Str :=
+  match hostnames with
+  | some (h :: _) => .ok h
+  | some [] => if fixed then .ok [] else .panic (.index "c.Devices.Entries[0]")
+  | none => if fixed then .ok [] else .panic (.nilDeref "c.Devices.Entries")
+
 end NA.C20.PanOs
+
+namespace NA.C20.Backend
+open NA.C20 NA.C20.Res
+
+/-- `device.getRealDevice` creates ONE backend per run; every `deviceconf.Config` of the run is
+produced by that backend's `ParseConfig` / `LoadDevice` / `MergeSpoc`. -/
+inductive Kind | asa | ios | linux | nsx | panos
+  deriving DecidableEq, Repr
+
+structure Conf where
+  kind : Kind
+  deriving Repr
+
+def produce (k : Kind) : Conf := ⟨k⟩
+
+/-- the type assertion `c.(*XConfig)` inside backend `k`. -/
+def assertKind (k : Kind) (c : Conf) : Res Unit :=
+  if c.kind = k then .ok () else .panic (.explicit "interface conversion")
+
+end NA.C20.Backend
 
 namespace NA.C20.Files
 open NA.C20 NA.C20.Res
